@@ -12,6 +12,14 @@ ALPH = {
     3: [(h, q, q), (q, q, h), (F(1), F(0), F(0)), (F(0), h, h), (q, h, q), (e, e, 3 * q)],
     4: [(q, q, q, q), (h, q, e, e), (F(0), h, F(0), h), (e, e, q, h)],
 }
+# non-dyadic columns whose float entries do not add up to exactly 1.0 and whose LAST state can be impossible
+ND = {
+    1: [(F(1),)],
+    2: [(F(3, 10), F(7, 10)), (F(1), F(0)), (F(1, 10), F(9, 10)), (F(7, 10), F(3, 10))],
+    3: [(F(3, 10), F(7, 10), F(0)), (F(1, 10), F(2, 10), F(7, 10)), (F(6, 10), F(4, 10), F(0)), (F(1, 3), F(1, 3), F(1, 3))],
+    # float sums: 2/10+7/10+1/10 = 1 - 1.1e-16 ; 9/28+18/28+1/28 = 1 + 2.2e-16 (residual goes somewhere when a sampler "adjusts")
+    4: [(F(2, 10), F(7, 10), F(1, 10), F(0)), (F(9, 28), F(18, 28), F(1, 28), F(0)), (F(1, 6), F(4, 6), F(1, 6), F(0)), (F(3, 10), F(3, 10), F(4, 10), F(0))],
+}
 PRIMES = [2, 3, 5, 7, 11, 13, 17, 19, 23, 29, 31, 37, 41, 43, 47, 53, 59, 61, 67, 71, 73, 79, 83, 89, 97, 101, 103,
           107, 109, 113, 127, 131, 137, 139, 149, 151, 157, 163, 167, 173, 179, 181, 191, 193, 197, 199, 211, 223,
           227, 229, 233, 239, 241, 251, 257, 263, 269, 271, 277, 281, 283, 293, 307, 311, 313, 317, 331, 337, 347]
@@ -44,6 +52,8 @@ def bn_from_desc(d):
             c = card[v]
             if "idx" in cols:
                 t[st] = list(ALPH[c][cols["idx"][v][j] % len(ALPH[c])])
+            elif "nd" in cols:
+                t[st] = list(ND[c][(v + j + cols["nd"]) % len(ND[c])])
             elif "fam" in cols:
                 a, b, k = cols["fam"]
                 t[st] = list(ALPH[c][(a * v + b * j + k) % len(ALPH[c])])
